@@ -156,7 +156,7 @@ Proof.
     destruct (sc_indents s) as [|i r]; [reflexivity|].
     destruct (in_needs_block_end i) eqn:EN; cbn [negb snd npend]; [reflexivity|]. rewrite EN. reflexivity. }
   destruct (ind <? Z.of_N col)%Z.
-  - apply fwp_bind, fwp_put.
+  - destruct (BLOCK_NESTING_MAX <=? N.of_nat (length inds))%N; [exact I|]. apply fwp_bind, fwp_put.
     assert (HS : forall u, skel 1 (set_indent (Z.of_N col) ({| in_indent := ind; in_needs_block_end := true |} :: inds) s) u ->
                            skel 2 s u).
     { intros u (A1 & A2 & A3). unfold skel, ssb, phi, tpn in *. sproj_in A1. sproj_in A2. sproj_in A3.
@@ -479,7 +479,10 @@ Proof using H_ws Fr_ws.
   match goal with |- context [if ?a then modify _ else ret tt] => generalize a; intros ifm end.
   sks.
   wb. apply fw_skip_non_blank. intros s2 A2 L2 S2 P2. pose proof (tl_rl_lt _ _ A2 ltac:(nz)) as R2. cbv beta.
-  wb. apply fw_look_ch. intros s3 R3 L3 E3 S3 P3. cbv beta.
+  wb. apply fwp_mono with (Q := fun _ s3 => rl s3 = rl s2 /\ ssb s3 = ssb s2 /\ phi s3 = phi s2).
+  { dif; [|apply fwp_ret; repeat split; reflexivity].
+    apply fw_look_ch. intros s3 R3 L3 E3 S3 P3. repeat split; assumption. }
+  intros c s3 (R3 & S3 & P3). cbv beta.
   wb. apply fwp_mono with (Q := fun _ s' => rl s' <= rl s3 /\ ssb s' = ssb s3 /\ phi s' = phi s3).
   { dif; [|apply fwp_ret; repeat split; lia].
     wb. eapply use_le; [apply Fr_ws|apply H_ws; fok|]. intros tw s4 R4 L4 S4 P4. cbv beta.
